@@ -129,15 +129,28 @@ class Escape:
                 if isinstance(st, ast.If):
                     nz_true, nz_false = _nonzero_facts(st.test)
                     guards.append(st.test)
-                    walk(st.body, handled, nonzero | nz_true)
+                    out_t = walk(st.body, handled, nonzero | nz_true)
                     guards.pop()
-                    walk(st.orelse, handled, nonzero | nz_false)
-                    # early exit: `if d == 0: return/raise/continue` makes d non-zero afterwards
-                    if nz_false and st.body and isinstance(st.body[-1], (ast.Return, ast.Raise, ast.Continue, ast.Break)):
-                        nonzero = nonzero | nz_false
-                elif isinstance(st, (ast.For, ast.While, ast.With)):
-                    walk(st.body, handled, nonzero)
-                    walk(getattr(st, "orelse", []), handled, nonzero)
+                    out_f = walk(st.orelse, handled, nonzero | nz_false)
+                    # facts after the `if`: those holding at the end of every branch that falls through (an early
+                    # exit `if d == 0: return` leaves d non-zero; `if not abs(d) > c: d = c` leaves d non-zero)
+                    live = [o for o in (out_t, out_f) if o is not None]
+                    if not live:
+                        return None
+                    nonzero = live[0] if len(live) == 1 else (live[0] & live[1])
+                elif isinstance(st, (ast.For, ast.While)):
+                    assigned = {x.id for b in st.body for x in ast.walk(b) if isinstance(x, ast.Name) and isinstance(x.ctx, ast.Store)}
+                    walk(st.body, handled, nonzero - assigned)
+                    walk(getattr(st, "orelse", []), handled, nonzero - assigned)
+                    nonzero = nonzero - assigned
+                elif isinstance(st, ast.With):
+                    r = walk(st.body, handled, nonzero)
+                    if r is None:
+                        return None
+                    nonzero = r
+                if isinstance(st, (ast.Return, ast.Raise, ast.Continue, ast.Break)):
+                    return None
+            return nonzero
         walk(fn.node.body, frozenset(), frozenset())
         return sites
 
